@@ -144,7 +144,9 @@ func (c *Command) execute(ctx context.Context) error {
 		slog.Debug("fdo.command", "args", c.cmd.Args)
 	}
 	if err := c.cmd.Start(); err != nil {
-		return fmt.Errorf("error starting command %v: %w", c.cmd.Args, err)
+		args := c.cmd.Args
+		c.cmd = nil // never started: there is no process to signal or kill
+		return fmt.Errorf("error starting command %v: %w", args, err)
 	}
 	c.errc = make(chan error, 1)
 	go func() {
